@@ -194,3 +194,81 @@ def tables_by_use(prog, f):
             if isinstance(v, dict) and v:
                 out.append((v, n))
     return out
+
+
+# -- reasoning over facts ----------------------------------------------------------------------------------------
+def implied(fs, pred):
+    """True when the conjunction of facts `fs` establishes a fact satisfying pred: some atom does, or some disjunction does in
+    every alternative."""
+    for a in fs:
+        if a[0] == "or":
+            if a[1] and all(implied(alt, pred) for alt in a[1]):
+                return True
+        elif pred(a):
+            return True
+    return False
+
+
+def value_aliases(fnode):
+    """Like aliases() but also for names assigned once from any call-free-of-side-effect-looking expression (calls included):
+    used to compare *keys* (`partname = PackURI.from_rel_ref(...)` then `partname in parts`)."""
+    cnt, val = {}, {}
+    for n in ast.walk(fnode):
+        if isinstance(n, ast.Assign) and len(n.targets) == 1 and isinstance(n.targets[0], ast.Name):
+            cnt[n.targets[0].id] = cnt.get(n.targets[0].id, 0) + 1
+            val[n.targets[0].id] = n.value
+        elif isinstance(n, ast.AnnAssign) and isinstance(n.target, ast.Name) and n.value is not None:
+            cnt[n.target.id] = cnt.get(n.target.id, 0) + 1
+            val[n.target.id] = n.value
+        elif isinstance(n, ast.Assign) and len(n.targets) == 1 and isinstance(n.targets[0], ast.Tuple) \
+                and isinstance(n.value, ast.Tuple) and len(n.targets[0].elts) == len(n.value.elts):
+            for a, b in zip(n.targets[0].elts, n.value.elts):
+                if isinstance(a, ast.Name):
+                    cnt[a.id] = cnt.get(a.id, 0) + 1
+                    val[a.id] = b
+        elif isinstance(n, (ast.For, ast.comprehension)):
+            for x in ast.walk(n.target):
+                if isinstance(x, ast.Name):
+                    cnt[x.id] = cnt.get(x.id, 0) + 2
+        elif isinstance(n, ast.AugAssign) and isinstance(n.target, ast.Name):
+            cnt[n.target.id] = cnt.get(n.target.id, 0) + 2
+        elif isinstance(n, (ast.FunctionDef, ast.Lambda)) and n is not fnode:
+            for a in n.args.args:
+                cnt[a.arg] = cnt.get(a.arg, 0) + 2
+    return {k: v for k, v in val.items() if cnt[k] == 1}
+
+
+class Row:
+    """One outcome of a block: the facts established on the path and how it ends."""
+    __slots__ = ("facts", "end", "value", "exc", "handlers", "path")
+
+    def __repr__(self):
+        return "Row(%s %s %s %s)" % (self.end, self.value, self.exc, self.facts)
+
+
+def outcomes(stmts, al=None):
+    rows = []
+    for p in enum_paths(stmts):
+        r = Row()
+        r.path, r.end = p, p.end
+        r.facts = facts(p, None, al)
+        r.value = norm(p.end_node.value, al) if p.end == "return" and p.end_node.value is not None else (None if p.end != "return" else "None")
+        r.exc = None
+        if p.end == "raise" and p.end_node.exc is not None:
+            e = p.end_node.exc
+            r.exc = ast.unparse(e.func) if isinstance(e, ast.Call) else ast.unparse(e)
+        r.handlers = [ast.unparse(e[1].type) if e[1].type is not None else "BaseException" for e in p.events if e[0] == "handler"]
+        rows.append(r)
+    return rows
+
+
+def full(e, val, depth=4):
+    """source of expression `e` (node or source text) with value_aliases substituted (calls and subscripts included)"""
+    class Sub(ast.NodeTransformer):
+        def visit_Name(self, n):
+            return copy.deepcopy(val[n.id]) if n.id in val else n
+
+    t = ast.parse(e, mode="eval").body if isinstance(e, str) else copy.deepcopy(e)
+    for _ in range(depth):
+        t = Sub().visit(t)
+    return ast.unparse(t)
